@@ -155,7 +155,8 @@ Theorem C15_numbering_inv : forall F data u ps,
   p_data (u_out u) = data /\ p_len (u_out u) = N.of_nat (length data) /\ p_offset (u_out u) < p_len (u_out u) /\
   concat ps = firstn (N.to_nat (p_offset (u_out u))) data /\
   p_fragment (u_out u) = Z.of_nat (length ps) /\ (length ps <= 16)%nat /\
-  (p_sentlen (u_out u) = 0 \/ p_sentlen (u_out u) = dlen F (p_len (u_out u)) (p_offset (u_out u))).
+  (p_sentlen (u_out u) = 0 \/ p_sentlen (u_out u) = dlen F (p_len (u_out u)) (p_offset (u_out u))) /\
+  Forall (fun p => p <> []) ps.
 Proof. exact flight_ok. Qed.
 Print Assumptions C15_numbering_inv.
 
@@ -175,12 +176,13 @@ Theorem C15_numbering_emit : forall F data u ps w u' o ag,
 Proof. exact flight_emission. Qed.
 Print Assumptions C15_numbering_emit.
 
-(* acks: a non-matching (seq, frag) changes nothing; a matching one that does not finish the packet
-   advances the offset by exactly the sent length and the fragment number by exactly 1 *)
+(* acks: a non-matching (seq, frag), or one that names a fragment of which nothing has been sent yet
+   (sentlen = 0), changes nothing; a matching one that does not finish the packet advances the offset
+   by exactly the sent length and the fragment number by exactly 1 *)
 Theorem C15_numbering_ack : forall u s f,
-  ((Z.of_N (p_seqno (u_out u)) =? s)%Z && (p_fragment (u_out u) =? f)%Z = false ->
+  ((Z.of_N (p_seqno (u_out u)) =? s)%Z && (p_fragment (u_out u) =? f)%Z && negb (p_sentlen (u_out u) =? 0) = false ->
      process_downstream_ack u s f = u) /\
-  (0 < p_len (u_out u) -> (-128 <= p_fragment (u_out u) < 127)%Z ->
+  (0 < p_len (u_out u) -> 0 < p_sentlen (u_out u) -> (-128 <= p_fragment (u_out u) < 127)%Z ->
    (Z.of_N (p_seqno (u_out u)) =? s)%Z && (p_fragment (u_out u) =? f)%Z = true ->
    p_offset (u_out u) + p_sentlen (u_out u) < p_len (u_out u) ->
      u_out (process_downstream_ack u s f) =
@@ -188,7 +190,7 @@ Theorem C15_numbering_ack : forall u s f,
                  <| p_fragment := (p_fragment (u_out u) + 1)%Z |>).
 Proof.
   intros u s f. split; [apply ack_miss|].
-  intros Hl Hr Hm Hlt. rewrite ack_hit_more by assumption. cbn.
+  intros Hl Hsl Hr Hm Hlt. rewrite ack_hit_more by assumption. cbn.
   replace (schar_wrap (p_fragment (u_out u) + 1)) with (p_fragment (u_out u) + 1)%Z; [reflexivity|].
   unfold schar_wrap. lia.
 Qed.
@@ -215,42 +217,22 @@ Print Assumptions C15_numbering_wrap.
 
 From Iodine Require Import ServerExamples.
 
-(* ---- the letter of "numbered consecutively from 0" ---------------------------------------------------- *)
-(* C15_numbering_emit says: wire number = (number of acks ACCEPTED for this packet) mod 16.  The stronger
-   reading "the first fragment a client ever sees of a packet is numbered 0" is refuted -- of the model
-   and, identically, of the real iodined (corpus/C15/premature-ack-first-fragment-numbered-1.cases):
-   process_downstream_ack also accepts an ack that names the current fragment before that fragment was
-   ever emitted (sentlen = 0).  The offset does not move, no data is lost, the numbers stay consecutive
-   and the last flag correct, but the emitted numbers start at 1.  [flight] covers this case (fl_ack_hit
-   with sentlen 0 appends an empty piece), so the theorems above hold unconditionally. *)
-Theorem C15_numbering_from_zero_refuted :
-  exists F data u ps w u' o ag pktb,
-    flight F data u ps /\ u_fragsize u = F /\ u_resent u <= 5 /\ p_offset (u_out u) = 0 /\ concat ps = [] /\
-    send_chunk_or_dataless u w = (u', o, ag) /\ hd (ORaw addr0 []) o = OAnswer (getq u w) 0 addr0 pktb 0 /\
-    (nth 1 pktb 0 / 2) mod 16 = 1 /\ skipn 2 pktb = firstn 10 data.
-Proof.
-  pose (data := map N.of_nat (seq 100 31)).
-  pose (u0 := (user_init 0) <| u_fragsize := 10 |>).
-  exists 10, data, (process_downstream_ack (start_new_outpacket u0 data) 1 0), [[]], WQ.
-  destruct (send_chunk_or_dataless (process_downstream_ack (start_new_outpacket u0 data) 1 0) WQ) as [[u' o] ag] eqn:E.
-  exists u', o, ag. eexists.
-  split.
-  { apply (fl_ack_hit 10 data (start_new_outpacket u0 data) [] 1%Z 0%Z).
-    - apply fl_start; [discriminate|vm_compute; lia].
-    - lia.
-    - vm_compute. reflexivity.
-    - vm_compute. reflexivity. }
-  split; [vm_compute; reflexivity|]. split; [vm_compute; discriminate|]. split; [vm_compute; reflexivity|].
-  split; [reflexivity|]. split; [reflexivity|].
-  vm_compute in E. inversion E. subst o. cbn [hd]. split; [reflexivity|]. split; vm_compute; reflexivity.
-Qed.
-Print Assumptions C15_numbering_from_zero_refuted.
+(* ---- numbered from 0 ----------------------------------------------------------------------------------- *)
+(* As long as nothing of the packet has been acknowledged (offset 0) the fragment counter is 0, so every
+   emission of the first fragment carries wire number 0 (C15_numbering_emit with ps = []), whatever acks
+   arrived: an ack naming fragment 0 before it was sent is ignored (sentlen = 0).  This is the repaired
+   behaviour (iodine commit 1b8dff8; before it, such an ack made the first fragment go out as number 1:
+   corpus/C15/premature-ack-first-fragment-numbered-1.cases, seeded/revert-fix-D19-...). *)
+Theorem C15_numbering_from_zero : forall F data u ps,
+  flight F data u ps -> p_offset (u_out u) = 0 -> ps = [] /\ p_fragment (u_out u) = 0%Z.
+Proof. exact flight_from_zero. Qed.
+Print Assumptions C15_numbering_from_zero.
 
-(* the same on a whole history: V, L, N=10, a 30-byte packet, then a ping whose ack byte names (seq 1,
-   frag 0): the four fragments go out with numbers 1,2,3,4 (last), and still tile the packet *)
+(* on a whole history: V, L, N=10, a 30-byte packet, a ping whose ack byte names (seq 1, frag 0) before
+   anything was sent, then the regular acks: the fragments go out with numbers 0,1,2,3 (last) and tile *)
 Example C15_example_premature_ack :
   map (fun k => map (fun d => (N.of_nat (length d) - 2, (nth 1 d 0 / 2) mod 16, nth 1 d 0 mod 2)) (ex2_payloads k)) [4; 5; 6; 7]%nat
-    = [[(10, 1, 0)]; [(10, 2, 0)]; [(10, 3, 0)]; [(1, 4, 1)]] /\
+    = [[(10, 0, 0)]; [(10, 1, 0)]; [(10, 2, 0)]; [(1, 3, 1)]] /\
   flat_map (fun k => skipn 2 (hd [] (ex2_payloads k))) [4; 5; 6; 7]%nat
     = 90 :: map N.of_nat (seq 100 20) ++ [10; 0; 0; 2] ++ map N.of_nat (seq 124 6).
 Proof. vm_compute. split; reflexivity. Qed.
